@@ -75,6 +75,8 @@ type interpreter struct {
 	aliased          map[*ssa.Global]bool
 	guards           map[*gmap]*value
 	guardNames       map[*gmap]string
+	publishedMaps    map[*gmap]string  // maps stored as values of a guarded map -> guard name
+	publishedArrs    map[*value]string // backing arrays of slices stored as values of a guarded map
 }
 
 var hooksUsedMu sync.Mutex
@@ -96,6 +98,51 @@ type monitor struct {
 }
 
 func (m *monitor) lockEvent(i *interpreter, kind string, p *value) {}
+
+// publish: a map or slice stored as a value of a guarded map becomes visible to readers
+// who (legitimately) use it after releasing the guard - as jet does with the per-type
+// field index and the in-memory loader's file contents. From then on it must not be
+// modified in place: any later write to it is reported.
+func (i *interpreter) publish(into *gmap, v value) {
+	name, guarded := i.guardNames[into]
+	if !guarded {
+		return
+	}
+	switch x := v.(type) {
+	case *gmap:
+		if x != nil {
+			i.publishedMaps[x] = name
+		}
+	case []value:
+		if cap(x) > 0 {
+			i.publishedArrs[&x[:1][0]] = name
+		}
+	}
+}
+
+func (i *interpreter) publishedWrite(m *gmap, what string) {
+	if name, ok := i.publishedMaps[m]; ok {
+		msg := fmt.Sprintf("write (%s) to a map that was published through %s and is read without the lock", what, name)
+		func() {
+			defer func() { recover() }()
+			i.recordViolation("lock: "+name, msg, i.currentModel())
+		}()
+	}
+}
+
+// publishedArrWrite reports an in-place write into the backing array of a published slice.
+func (i *interpreter) publishedArrWrite(s []value, what string) {
+	if len(i.publishedArrs) == 0 || cap(s) == 0 {
+		return
+	}
+	if name, ok := i.publishedArrs[&s[:1][0]]; ok {
+		msg := fmt.Sprintf("in-place write (%s) into a byte slice that was published through %s and is read without the lock", what, name)
+		func() {
+			defer func() { recover() }()
+			i.recordViolation("lock: "+name, msg, i.currentModel())
+		}()
+	}
+}
 
 // guardCheck is called on every operation on a map: if the harness declared the map as
 // guarded by a mutex (vfGuardMap), the mutex must be held - write-locked for updates,
@@ -526,6 +573,8 @@ func visitInstr(fr *frame, instr ssa.Instruction) continuation {
 			panic(i.rtPanic("hash of unhashable type " + itf.t.String()))
 		}
 		i.guardCheck(m, true, "store")
+		i.publishedWrite(m, "store")
+		i.publish(m, fr.get(instr.Value))
 		m.insert(i, key, fr.get(instr.Value))
 
 	case *ssa.TypeAssert:
@@ -1067,6 +1116,8 @@ func (i *interpreter) resetSideTables() {
 	i.extState = map[string]interface{}{}
 	i.guards = map[*gmap]*value{}
 	i.guardNames = map[*gmap]string{}
+	i.publishedMaps = map[*gmap]string{}
+	i.publishedArrs = map[*value]string{}
 }
 
 // resetForPath restores the initial state of the packages under test.
